@@ -210,6 +210,10 @@ def neutronScattering (t : Tbl α) (atoms : List (Atom × α)) (density w : α) 
 def neutronScatteringE (t : Tbl α) (atoms : List (Atom × α)) (density energy : α) : Outcome α :=
   neutronScattering t atoms density (neutronWavelength energy)
 
+/-- neither `energy=` nor `wavelength=`: `wavelength = ABSORPTION_WAVELENGTH` -/
+def neutronScatteringDefault (t : Tbl α) (atoms : List (Atom × α)) (density : α) : Outcome α :=
+  neutronScattering t atoms density PtGen.ABSORPTION_WAVELENGTH
+
 /-- `neutron_sld = neutron_scattering(...)[0]`: `none` = `None`; the vacuum tuple is `(0,0,0)` -/
 def Outcome.sld : Outcome α → Option (α × α × α)
   | .missing => none
